@@ -5,6 +5,8 @@ package prog
 
 import (
 	"fmt"
+	"hash/fnv"
+	"math/rand"
 	"sort"
 	"strings"
 )
@@ -268,6 +270,14 @@ type Return struct {
 }
 type Comment struct{ S string }
 
+// RawFail is a statement the model does not interpret: it is printed verbatim (one line) and
+// evaluating it raises an error; Positioned says whether jet detects the failure itself.
+type RawFail struct {
+	Src        string
+	Positioned bool
+	pos
+}
+
 // pos is filled in by the printer: the file and 1-based line of the action.
 type pos struct {
 	File string
@@ -296,7 +306,8 @@ type Program struct {
 	Globals map[string]Value
 	Data    Value // context
 	HasData bool
-	Newline bool // print every action on its own line (line numbers become meaningful)
+	Newline bool  // print every action on its own line (line numbers become meaningful)
+	Trim    int64 // != 0: seed for random trim markers ({{- and -}}) on the printed actions
 }
 
 func (p *Program) File(path string) *File {
@@ -315,6 +326,7 @@ type printer struct {
 	line    int
 	file    string
 	Newline bool // put every statement on its own line
+	trim    *rand.Rand
 }
 
 func (p *printer) w(s string) {
@@ -326,7 +338,22 @@ func (p *printer) act(n positioned, body string) {
 	if n != nil {
 		n.setPos(p.file, p.line)
 	}
-	p.w("{{" + body + "}}")
+	l, r := "{{", "}}"
+	if p.trim != nil {
+		if !strings.HasPrefix(body, " ") {
+			body = " " + body
+		}
+		if !strings.HasSuffix(body, " ") {
+			body += " "
+		}
+		if p.trim.Intn(3) == 0 {
+			l = "{{-"
+		}
+		if p.trim.Intn(3) == 0 {
+			r = "-}}"
+		}
+	}
+	p.w(l + body + r)
 	if p.Newline {
 		p.w("\n")
 	}
@@ -443,6 +470,12 @@ func (p *printer) node(n Node) {
 		p.act(nil, "end")
 	case *Return:
 		p.act(n, "return "+n.E.src())
+	case *RawFail:
+		n.setPos(p.file, p.line)
+		p.w(n.Src)
+		if p.Newline {
+			p.w("\n")
+		}
 	default:
 		panic(fmt.Sprintf("prog: cannot print %T", n))
 	}
@@ -466,8 +499,13 @@ func (p *printer) ifNode(n *If, kw string) {
 }
 
 // PrintFile renders f to jet source (default delimiters) and fills in positions.
-func PrintFile(f *File, newline bool) string {
+func PrintFile(f *File, newline bool, trim int64) string {
 	p := &printer{line: 1, file: f.Path, Newline: newline}
+	if trim != 0 {
+		h := fnv.New64a()
+		h.Write([]byte(f.Path))
+		p.trim = rand.New(rand.NewSource(trim ^ int64(h.Sum64())))
+	}
 	if f.Extends != "" {
 		p.w(fmt.Sprintf("{{extends %q}}", f.Extends))
 		if newline {
@@ -489,7 +527,7 @@ func PrintFile(f *File, newline bool) string {
 func (pr *Program) Sources(newline bool) map[string]string {
 	m := map[string]string{}
 	for _, f := range pr.Files {
-		m[f.Path] = PrintFile(f, newline)
+		m[f.Path] = PrintFile(f, newline, pr.Trim)
 	}
 	return m
 }
